@@ -757,7 +757,7 @@ def _gen(seed, tier, opts):
         "property": PROP, "seed": seed, "tenants": tenants, "script": script, "share": share_level,
         "env_rerun": bool(rng.random() < (0.25 if tier == "quick" else 0.5)),
         "env_variant": {"PYTHONHASHSEED": str(rng.choice([1, 7, 123, 99991])), "threads": str(rng.choice([1, 4, 16])),
-                        "cwd": rng.choice(["scratch", "scratch/sub dir"])},
+                        "cwd": rng.choice(["scratch", "scratch/sub dir"]), "optimize": rng.choice(["0", "0", "1"])},
     }
     return case
 
@@ -988,6 +988,7 @@ def execute(case, stop_at_first=True, collect=True, known=None):
     stats = res["stats"]
     user_viol = []
     bad_results = []
+    g0 = _global_state()
     try:
         prog = _run_program(case, stats, user_viol, bad_results)
     except HarnessError:
@@ -1002,6 +1003,10 @@ def execute(case, stop_at_first=True, collect=True, known=None):
         res["digest"] = log.hexdigest()
         res["log"] = []
         return res
+    g1 = _global_state()
+    for what in g0:
+        if g0[what] != g1[what]:
+            violation("global_state_changed", what, extra={"before": g0[what], "after": g1[what]})
     # 3. compare
     for t in case["tenants"]:
         bad, n, bit = _cmp_obs(prog[t["id"]], iso[iso_key[t["id"]]], RT_ISOLATED)
@@ -1046,6 +1051,13 @@ def execute(case, stop_at_first=True, collect=True, known=None):
         res["fault_fired"]["env_rerun"] = 1
         res["probes"]["env_hashseed_%s" % case["env_variant"]["PYTHONHASHSEED"]] = 1
         res["probes"]["env_threads_%s" % case["env_variant"]["threads"]] = 1
+        res["probes"]["env_optimize_%s" % case["env_variant"].get("optimize", "0")] = 1
+        # the malformed set-ups must be rejected in that interpreter as well (python -O strips asserts, for instance)
+        for name, verdict in envobs.get("__verdicts__", []):
+            if verdict:
+                violation("bad_setup_accepted", name, extra={"detail": verdict, "env": case["env_variant"], "where_run": "fresh interpreter"})
+        for what in envobs.get("__global_state_changed__", []):
+            violation("global_state_changed", what, extra={"env": case["env_variant"], "where_run": "fresh interpreter"})
         for t in case["tenants"]:
             bad, n, bit = _cmp_obs(envobs[str(t["id"])], prog[t["id"]], RT_ENV)
             res["stats"]["env_obs"] = res["stats"].get("env_obs", 0) + n
@@ -1089,6 +1101,10 @@ def _rerun_in_fresh_interpreter(case):
         env[k] = case["env_variant"]["threads"]
     env["VERIF_BLAS_THREADS"] = case["env_variant"]["threads"]
     env["VERIF_SCRATCH_BASE"] = cwd
+    if case["env_variant"].get("optimize") == "1":
+        env["PYTHONOPTIMIZE"] = "1"
+    else:
+        env.pop("PYTHONOPTIMIZE", None)
     env.pop("VERIF_REEXEC", None)
     p = subprocess.run([sys.executable, os.path.join(core.VERIF, "sim", "cli.py"), "C20", "--exec-program", cf, of],
                        env=env, capture_output=True, text=True, timeout=TASK_TIMEOUT, cwd=cwd)
@@ -1096,7 +1112,7 @@ def _rerun_in_fresh_interpreter(case):
         raise HarnessError("fresh-interpreter re-execution failed: %s %s" % (p.stdout[-500:], p.stderr[-1500:]))
     z = np.load(of, allow_pickle=False)
     index = json.loads(str(z["__index__"]))
-    out = {}
+    out = {"__verdicts__": index.pop("__verdicts__", []), "__global_state_changed__": index.pop("__global_state_changed__", [])}
     for tid, lst in index.items():
         out[tid] = []
         for i, (kind, names) in enumerate(lst):
@@ -1104,19 +1120,31 @@ def _rerun_in_fresh_interpreter(case):
     return out
 
 
+def _global_state():
+    """Process-wide numerical settings that library code has no business changing behind the user's back."""
+    po = np.get_printoptions()
+    return {"np.geterr": json.dumps(np.geterr(), sort_keys=True), "np.printoptions": json.dumps({k: repr(v) for k, v in po.items()}, sort_keys=True)}
+
+
 def exec_program(case_file, out_file):
     """Entry point of the fresh interpreter: run the interleaved program, dump observations."""
     core.bootstrap()
     with open(case_file) as f:
         case = json.load(f)
-    prog = _run_program(case, {}, [], [])
+    bad_results = []
+    g0 = _global_state()
+    prog = _run_program(case, {}, [], bad_results)
+    g1 = _global_state()
+    verdicts = [[name, judge_bad_setup(name, info)] for name, info in bad_results]
     arrays = {}
-    index = {}
+    index = {"__verdicts__": verdicts, "__global_state_changed__": [k for k in g0 if g0[k] != g1[k]]}
     for tid, lst in prog.items():
         index[str(tid)] = []
         for i, (kind, d) in enumerate(lst):
             names = sorted(d)
             index[str(tid)].append([kind, names])
+            if False:
+                pass
             for j, n in enumerate(names):
                 arrays["%s/%d/%d" % (tid, i, j)] = d[n]
     arrays["__index__"] = np.array(json.dumps(index))
